@@ -208,9 +208,9 @@ Lemma step_rep k nmem nrep (ws : list wnode) :
       let* sel := select jlab c rep0 in
       match sel with
       | [] => Ok []
-      | _ => let* env := collect (fun rep => let* r := contJ (pick (map fst sel) rep) in Ok (venvelope r))
+      | _ => let* env := collect (fun rep => let* r := contJ (pick (map fst sel) rep) in Ok (envelope VList r))
                                  (chunks nmem nrep (map (rn k) ws)) in
-             Ok (venvelope env)
+             Ok (envelope VList env)
       end
   end =
   match map qn_of ws with
@@ -252,12 +252,15 @@ Proof.
 Qed.
 
 (* one step from a node and from its rendering *)
-Lemma jstep_sim q j : simge (S m) q j -> jstep labels c j contJ = ref_step attrs labels VList c q contV.
+Lemma jstep_sim q j : simple_comp c = true -> simge (S m) q j ->
+  jstep labels VList c j contJ = ref_step attrs labels VList c q contV.
 Proof.
-  intros (k & Hk & Hs). assert (Hk' : (m <= k)%nat) by lia.
-  assert (Hval : forall b i, jstep labels c (JVal (rv k b i)) contJ = ref_step attrs labels VList c (QV i) contV).
+  intros Hsc (k & Hk & Hs). assert (Hk' : (m <= k)%nat) by lia.
+  assert (Hsep : (c_sep c =? SEP_CHILD)%N = false -> (c_sep c =? SEP_ATTRIB)%N = true).
+  { intros H. unfold simple_comp in Hsc. rewrite H in Hsc. exact Hsc. }
+  assert (Hval : forall b i, jstep labels VList c (JVal (rv k b i)) contJ = ref_step attrs labels VList c (QV i) contV).
   { intros b i. destruct k as [|k0]; [lia|]. cbn [render_value]. unfold jstep, ref_step.
-    destruct (c_sep c =? SEP_CHILD)%N; [reflexivity|]. destruct (c_sep c =? SEP_ATTRIB)%N; [|reflexivity].
+    destruct (c_sep c =? SEP_CHILD)%N; [reflexivity|]. destruct (c_sep c =? SEP_ATTRIB)%N; [|discriminate (Hsep eq_refl)].
     change (Nested.attrs_of attrs i) with (Query.attrs_of attrs i).
     destruct (Query.attrs_of attrs i) as [|a ats]; [reflexivity|].
     assert (Hm : forall (l : list jv) (X : Type) (d : X) (K : list jv -> X), l <> [] ->
@@ -277,26 +280,26 @@ Proof.
   destruct Hs as [w Hw|b i|ms Hms].
   - destruct w as [id|id ms|id nmem nrep ms|id nmem f ms|i]; cbn [qn_of render_node].
     + unfold jstep, ref_step. destruct (c_sep c =? SEP_CHILD)%N; [reflexivity|].
-      destruct (c_sep c =? SEP_ATTRIB)%N; reflexivity.
+      destruct (c_sep c =? SEP_ATTRIB)%N; [reflexivity|discriminate (Hsep eq_refl)].
     + unfold jstep, ref_step. destruct (c_sep c =? SEP_CHILD)%N; [apply Hseq; exact Hw|].
-      destruct (c_sep c =? SEP_ATTRIB)%N; reflexivity.
+      destruct (c_sep c =? SEP_ATTRIB)%N; [reflexivity|discriminate (Hsep eq_refl)].
     + cbn [wf_node] in Hw. destruct Hw as [Hlen Hms].
       unfold jstep, ref_step. destruct (c_sep c =? SEP_CHILD)%N.
       * cbn [members_of]. cbv zeta. rewrite rns_map.
         apply step_rep; [exact Hk'|rewrite <- wlength_list; exact Hlen|apply wf_nodes_list; exact Hms].
-      * destruct (c_sep c =? SEP_ATTRIB)%N; reflexivity.
+      * destruct (c_sep c =? SEP_ATTRIB)%N; [reflexivity|discriminate (Hsep eq_refl)].
     + cbn [wf_node] in Hw. destruct Hw as [Hlen Hms].
       unfold jstep, ref_step. destruct (c_sep c =? SEP_CHILD)%N.
       * cbn [members_of]. cbv zeta. rewrite rns_map.
         apply step_rep; [exact Hk'|rewrite <- wlength_list; exact Hlen|apply wf_nodes_list; exact Hms].
-      * destruct (c_sep c =? SEP_ATTRIB)%N; [|reflexivity].
+      * destruct (c_sep c =? SEP_ATTRIB)%N; [|discriminate (Hsep eq_refl)].
         apply (step_list QV (fun x => JVal (rv k false x)) [f]).
         -- intros w. apply jlab_rv.
         -- intros w _. apply simge_val. exact Hk'.
     + apply Hval.
   - apply Hval.
   - unfold jstep, ref_step. destruct (c_sep c =? SEP_CHILD)%N; [apply Hseq; exact Hms|].
-    destruct (c_sep c =? SEP_ATTRIB)%N; reflexivity.
+    destruct (c_sep c =? SEP_ATTRIB)%N; [reflexivity|discriminate (Hsep eq_refl)].
 Qed.
 
 End Step.
@@ -312,21 +315,24 @@ Qed.
 Lemma simge_le m m' q j : (m' <= m)%nat -> simge m q j -> simge m' q j.
 Proof. intros H (k & Hk & Hs). exists k. split; [lia|exact Hs]. Qed.
 
-Theorem jeval_sim : forall cs q j, simge (length cs) q j ->
+Theorem jeval_sim : forall cs q j, simple_path cs = true -> simge (length cs) q j ->
   jeval labels cs j = ref_gen attrs labels leaf_value VList cs q.
 Proof.
-  induction cs as [|c rest IH]; intros q j Hs; [reflexivity|].
-  cbn [jeval ref_gen length] in *. apply (jstep_sim c (length rest)); [|exact Hs].
+  induction cs as [|c rest IH]; intros q j Hsp Hs; [reflexivity|].
+  cbn [simple_path forallb] in Hsp. apply andb_prop in Hsp as [Hc Hrest].
+  unfold jeval. cbn [jgen ref_gen length] in *. fold (jeval labels).
+  apply (jstep_sim c (length rest)); [|exact Hc|exact Hs].
   intros qs js H. destruct rest as [|c2 rest2].
   - symmetry. eapply collect_Forall2; [exact H|]. intros a b Hab. symmetry. apply jvalue_sim. exact Hab.
-  - symmetry. eapply collect_Forall2; [exact H|]. intros a b Hab. symmetry. apply IH. exact Hab.
+  - symmetry. eapply collect_Forall2; [exact H|]. intros a b Hab. symmetry. apply IH; [exact Hrest|exact Hab].
 Qed.
 
 (* EVALUATION OVER THE NESTED RENDERING = EVALUATION OVER THE TREE *)
-Theorem eval_json_tree k nodes cs : wf_nodes vals nodes -> (length cs <= k)%nat ->
+Theorem eval_json_tree k nodes cs : wf_nodes vals nodes -> simple_path cs = true -> (length cs <= k)%nat ->
   eval_json labels (rns k nodes) cs = eval_ref attrs labels nodes cs.
 Proof.
-  intros Hwf Hk. unfold eval_json, eval_ref. apply jeval_sim. exists k. split; [exact Hk|constructor; exact Hwf].
+  intros Hwf Hsp Hk. unfold eval_json, eval_ref. apply jeval_sim; [exact Hsp|].
+  exists k. split; [exact Hk|constructor; exact Hwf].
 Qed.
 
 End J.
